@@ -168,28 +168,26 @@ namespace details {
         {
             constexpr attribute_value( notification_data& r, const void* v )
                 : result( r )
-                , index( 0 )
                 , value( v )
             {}
 
             template< typename O >
             void each()
             {
+                // the index has to be the position in the list sorted by priority, as used by
+                // find_notification_by_uuid and find_notification_data_by_index
                 if ( O::characteristic_t::value_type::is_this( value ) )
-                    result = notification_data( O::first_attribute_index + 1, index );
-
-                ++index;
+                    result = notification_data( O::first_attribute_index + 1, O::cccd_handle );
             }
 
             notification_data&  result;
-            std::size_t         index;
             const void*         value;
         };
 
         static notification_data find_notification_data( const void* value )
         {
             notification_data result;
-            for_< characteristics_only_with_cccd >::each( attribute_value( result, value ) );
+            for_< characteristics_with_cccd_handle >::each( attribute_value( result, value ) );
 
             return result;
         }
